@@ -33,4 +33,4 @@ def main(tier):
         PROP, tier, CONFIGS, lambda p, rng: SITES, owned, nontrivial,
         'complete programs of the AstEnum builder machine (macro-rich and body-rich configurations), each rendered, '
         'parsed and expanded by the real code (with and without preserve_definitions); non-trivial = distinct '
-        'programs whose main body calls a macro that uses a parameter or calls another macro')
+        'programs whose main body calls a macro that uses a parameter or calls another macro', variants=('edge',))
